@@ -1,0 +1,15 @@
+//go:build verif
+
+package fs
+
+// Verification hooks (build tag "verif" only): verifYield marks the points
+// between the system calls of lock acquisition and release, so that a replay
+// harness can enforce an interleaving found by the checker.
+
+var verifYieldFn func(point int)
+
+func verifYield(point int) {
+	if verifYieldFn != nil {
+		verifYieldFn(point)
+	}
+}
